@@ -424,6 +424,9 @@ def gen_world_model(rng, structured=None, use_cache="rand", nfiles=None, sizes=N
     if high_ids_p and rng.random() < high_ids_p:
         id_base = rng.choice([999999990, 1000000000, 2147483640, 3999999000])   # ten-digit IDs, around 2^31
     names = ["main.rs", "lib.rs", "net/conn.rs", "net/tls/hs.rs", "util.rs", "db/store.rs", "z_last.rs", "a_first.rs"]
+    if rng.random() < 0.25:
+        # generated-code style names with several dots, a dot-file, a name with spaces
+        names += ["proto/acme.telemetry.v1.rs", "schema.generated.rs", "api.pb.rs", ".hidden_mod.rs", "two words.rs", "v1.2/mod.rs"]
     rng.shuffle(names)
     files = {}
     used_ids = set()
